@@ -988,6 +988,14 @@ class Router:
             request.destination) if request.destination else None
         with self._ls_lock:
             ls_in_progress = request.destination in self._ls_packet_buffers
+        if (
+            de_entry is not None
+            and not ls_in_progress
+            and de_entry.position_vector.gn_addr != request.destination
+        ):
+            # Placeholder left behind by a Location Service that gave up: it never received a
+            # position vector for the destination, so it is no usable LocTE.
+            de_entry = None
         if de_entry is None or ls_in_progress:
             # No LocTE for destination, or only the placeholder of a Location Service that is
             # still in progress → invoke / join the Location Service (§10.3.7.1.2); the request
